@@ -483,3 +483,96 @@ impl Scenario for C03Enumerate {
         Ok(())
     }
 }
+
+
+/// include trees whose files are damaged or missing: the loader must still return
+pub struct C03IncludeTrees;
+
+impl Scenario for C03IncludeTrees {
+    fn property(&self) -> &'static str {
+        "C03"
+    }
+    fn name(&self) -> &'static str {
+        "damaged_include_trees"
+    }
+    fn run(&self, cx: &mut Cx) -> Result<(), Violation> {
+        use crate::c16::{install_tree, make_include, split_a2ml, split_list, total_bytes, SplitState};
+        use crate::gen::{render_file, Item};
+        let fs = SimFs::new("/cwd", cx.tape.draw_u64());
+        fs.install();
+        fs.mkdir_p("/work");
+        fs.set_chunking(pick_chunking(cx));
+        let mut opts = GenOpts::swarm(&mut cx.tape);
+        opts.budget = opts.budget.clamp(8, 60);
+        opts.float_overflow = false;
+        opts.allow_a2ml = cx.tape.chance(3, 4);
+        opts.allow_ifdata = cx.tape.chance(3, 4);
+        let lo = LayoutOpts::swarm(&mut cx.tape);
+        let mut items: Vec<Item> = {
+            let mut g = DocGen::new(&mut cx.tape, opts);
+            g.document().into_iter().map(Item::Node).collect()
+        };
+        let mut st = SplitState { counter: 0, max_files: 1 + cx.tape.draw(5) as u32, made: 0, max_depth_reached: 0, decoys: Vec::new(), syntax: String::new() };
+        split_list(cx, &mut items, 0, "/work", 1, &mut st, 5, false);
+        if st.made == 0 {
+            make_include(cx, &mut items, 0, "/work", 1, &mut st, false);
+        }
+        if cx.tape.chance(1, 2) {
+            split_a2ml(cx, &mut items, "/work", &mut st);
+        }
+        let root = render_file(&mut cx.tape, "/work/main.a2l", &items, &lo, 0);
+        let files: Vec<(String, String, Vec<Span>)> = root.all_files().iter().map(|f| (f.path.clone(), f.text.clone(), f.spans.clone())).collect();
+        let spec_valid = a2mlgen::gen_a2ml(&mut cx.tape).text;
+        cx.event(&format!("include tree: {} files, syntax {}", files.len(), st.syntax));
+        let rounds = 2 + cx.tape.draw(5);
+        for _ in 0..rounds {
+            // restore the tree, then damage it
+            install_tree(&fs, cx, &root);
+            let nvictims = 1 + cx.tape.draw(2);
+            let mut what = Vec::new();
+            for _ in 0..nvictims {
+                let (path, text, spans) = cx.tape.pick(&files).clone();
+                if cx.tape.chance(1, 6) {
+                    fs.remove(&path);
+                    cx.fault_fired("storage:file-missing");
+                    what.push(format!("{path} removed"));
+                    continue;
+                }
+                let bytes = text.into_bytes();
+                let f = random_sfault(&mut cx.tape, &bytes, &spans, spec_valid.as_bytes());
+                let damaged = apply_sfault(&bytes, &f);
+                if damaged != bytes {
+                    cx.fault_fired(f.name());
+                    cx.nontrivial = true;
+                }
+                what.push(format!("{path}: {} at {} ({})", f.name(), f.pos(), region_class(f.pos(), &spans)));
+                fs.put(&path, &damaged);
+            }
+            let strict = cx.tape.chance(1, 2);
+            let spec = match cx.tape.draw(3) {
+                0 => None,
+                1 => Some(spec_valid.clone()),
+                _ => Some(String::from_utf8_lossy(&apply_sfault(spec_valid.as_bytes(), &random_sfault(&mut cx.tape, spec_valid.as_bytes(), &[], b"/include \"x\""))).to_string()),
+            };
+            let plan = random_io_plan(cx);
+            let total = total_bytes(&fs);
+            fs.begin_op(plan, false);
+            let r = sut::load_path(cx, "totality", "/work/main.a2l", spec, strict, total)?;
+            for (_, f) in fs.fired() {
+                cx.fault_fired(f.name());
+            }
+            if fs.cycle_guard_hit() {
+                return Err(cx.fail("totality", "include-cycle-not-detected", "the same file was opened more than 48 times during one load".to_string()));
+            }
+            let outcome = match r {
+                Ok((_, d)) if d.is_empty() => "Ok".to_string(),
+                Ok(_) => "Ok+diagnostics".to_string(),
+                Err(e) => sut::err_class(&e),
+            };
+            cx.event(&format!("{what:?}, strict={strict} -> {outcome}"));
+            cx.sig(&format!("tree|{}|{strict}|{outcome}", what.iter().map(|w| w.split(": ").nth(1).unwrap_or("removed").split(' ').next().unwrap_or("").to_string()).collect::<Vec<_>>().join("+")));
+        }
+        SimFs::uninstall();
+        Ok(())
+    }
+}
